@@ -261,6 +261,15 @@ def family_pipeline(fam, progs, outdir, cap=20000, do_mc=True, workers=8, max_di
                             c, pc = d["want"][0], d["want"][1]
                             code = p["tasks"][c]
                             sig = f"needed-task-not-offered({code[pc-1]['k'] if pc <= len(code) else 'exit'})"
+                        # Operations known to lack a scheduling point of their own (open findings) make other outcomes of the
+                        # same program unreachable too, and where the directed replay first diverges depends on the witness
+                        # TLC happened to print: such gaps are attributed to the operation the program contains.
+                        if match_known("C02", "incomplete/" + sig, vlib.load_known()) is None:
+                            kinds = {x["k"] for t_ in p["tasks"] for x in t_}
+                            for kop in ("drop_tx", "drop_rx", "barrier_wait"):
+                                if kop in kinds:
+                                    sig = f"in-program-with({kop})"
+                                    break
                         by_sig.setdefault(sig, []).append({"outcome": o, "witness": wit, "divergence": rep.get("divergence")})
                     for sig, items in by_sig.items():
                         problems.append({"kind": "outcome-missing-in-impl", "prog": p,
